@@ -787,6 +787,23 @@ def check_C16(run):
     strs += [''.join(rng.choice(['a', ':', '@', '\\', 'C', 'é', '/']) for _ in range(rng.randint(0, 6))) for _ in range(400 if not thorough else 5000)]
     impl = [a for a, _ in C.run_harness(['rpd ' + C.X(s) for s in strs])]
     model = C.run_model(['rpd ' + C.X(s) for s in strs])
+    # "a sync described in a spec file behaves exactly like the same sync given as SRC DEST": the argument [user@]host:path must
+    # resolve to the (user, host, path) a spec file would state.  Independent rule (from the --help text): the only exception is the
+    # Windows drive syntax, one letter + ':' + backslash, which is a local path.
+    triples = []
+    for host in ['b', 'C', 'ab', 'h1', 'é', 'host.example']:
+        for user in ['', 'u', 'user.name']:
+            for path_ in ['/srv/x', 'rel/p', '/', '~/d', 'C:\\x', 'a:b', '/x:y', 'x y', './p', '//x', 'é']:
+                triples.append((user, host, path_))
+    tstrs = [(u + '@' if u else '') + h + ':' + p_ for u, h, p_ in triples]
+    timpl = [a for a, _ in C.run_harness(['rpd ' + C.X(s_) for s_ in tstrs])]
+    for (u, h, p_), s_, i_ans in zip(triples, tstrs, timpl):
+        run.case(('rpd-triple', s_), True, sample=None); run.count('path-arg:user-host-path'); run.cov['traces_validated_against_impl'] += 1
+        want = f'ok:x{u.encode().hex()},x{h.encode().hex()},x{p_.encode().hex()}'
+        if i_ans != want:
+            run.violation(dict(kind='oracle-failed-on-implementation', oracle='SRC/DEST given as [user@]host:path names the same (user, host, path) as the spec-file keys *_username / *_hostname / src|dest', layer='L1',
+                               argument=s_, expected=dict(user=u, host=h, path=p_), impl=i_ans))
+            break
     for s, i_ans, m_ans in zip(strs, impl, model):
         run.case(('rpd', s), ':' in s, sample=None)
         run.count('path-arg:' + i_ans[:3]); run.cov['traces_validated_against_impl'] += 1
